@@ -24,23 +24,6 @@ def cutOf : Except PyErr (Option KeyVal) → Cut
   | .ok (some _) => .key
   | .error e => .fail e
 
-/-- a known key can be named in every mode (the NotImplementedError / UnicodeDecodeError branches of `_key_name`
-    are unreachable from `get_key`) -/
-theorem keyName_ok_of_known {T : KeyTables} (hT : T.WF) (seq : List Nat) (enc : Enc) (mode : KeyMode)
-    (hk : keyKnown T seq enc = true) : ∃ k, keyName T seq enc mode = .ok k := by
-  by_cases hkey : T.isKey seq = true
-  · obtain ⟨k, h, _⟩ := keyName_isKey hT hkey enc mode
-    exact ⟨k, h⟩
-  · have hkey : T.isKey seq = false := by simpa using hkey
-    have hd : decodable seq enc = true := by
-      simp only [KeyTables.isKey] at hkey
-      simp only [keyKnown, Bool.or_assoc] at hk
-      rw [← Bool.or_assoc, hkey] at hk
-      simpa using hk
-    simp only [decodable, Option.isSome_iff_exists] at hd
-    obtain ⟨cs, hcs⟩ := hd
-    exact ⟨_, keyName_plain enc mode hkey hcs⟩
-
 theorem getKey_cut {T : KeyTables} (hT : T.WF) (seq : List Nat) (enc : Enc) (mode : KeyMode) (full : Bool) :
     cutOf (getKey T seq enc mode full) =
       if seq.length > T.maxSize then .fail .valueError
